@@ -92,36 +92,36 @@ Definition step_obs (nm : nat) (evs : list event) (out : outcome) (s : store) (p
   OL [olist oevent evs; ooutcome out; ostates nm s; pr].
 
 (* the call is suspended at a real suspension (continuation k of the driven coroutine) *)
-Fixpoint raw_steps (nm : nat) (m : Z) (cl : call) (s : store) (k : input -> coro)
+Fixpoint raw_steps (nm : nat) (bd : bool) (m : Z) (cl : call) (s : store) (k : input -> coro)
          (ops : list rawop) : list obs * store * cobj :=
   match ops with
   | [] => (* the harness closes a call it abandons *)
-      let '(evs, s', stp) := call_resume m cl s k (Throw GeneratorExit) in
+      let '(evs, s', stp) := bound_resume bd m cl s k (Throw GeneratorExit) in
       ([step_obs nm evs (out_of_close stp) s' (OL [])], s', obj_of_stop stp Finished)
   | (op, pc) :: t =>
       let i := match op with DSend v => Send v | DThrow e => Throw e | DClose => Throw GeneratorExit end in
-      let '(evs, s', stp) := call_resume m cl s k i in
+      let '(evs, s', stp) := bound_resume bd m cl s k i in
       let out := match op with DClose => out_of_close stp | _ => out_of_stop stp end in
       match stp with
       | MEnd o _ => ([step_obs nm evs out s' (OL [])], s', o)
       | MSusp _ k' =>
           let '(pr, s'') := probe nm m s' k' pc in
-          let '(rest, s3, o3) := raw_steps nm m cl s'' k' t in
+          let '(rest, s3, o3) := raw_steps nm bd m cl s'' k' t in
           (step_obs nm evs out s' pr :: rest, s3, o3)
       end
   end.
 
-(* monitor, call, probe after the first step, further operations *)
-Definition rawcall := (Z * call * option call * list rawop)%type.
+(* monitor, through a BoundMonitor?, call, probe after the first step, further operations *)
+Definition rawcall := (Z * bool * call * option call * list rawop)%type.
 
 Definition raw_call (nm : nat) (s : store) (o : cobj) (rc : rawcall) : list obs * store * cobj :=
-  let '(m, cl, pc, ops) := rc in
+  let '(m, bd, cl, pc, ops) := rc in
   let '(evs, s', stp) := call_run m s o cl in
   match stp with
   | MEnd o' _ => ([step_obs nm evs (out_of_stop stp) s' (OL [])], s', o')
   | MSusp _ k' =>
       let '(pr, s'') := probe nm m s' k' pc in
-      let '(rest, s3, o3) := raw_steps nm m cl s'' k' ops in
+      let '(rest, s3, o3) := raw_steps nm bd m cl s'' k' ops in
       (step_obs nm evs (out_of_stop stp) s' pr :: rest, s3, o3)
   end.
 
